@@ -7,6 +7,7 @@ import ast
 from ..index import unparse, iter_own_nodes, AnalysisError
 from ..cfg import calls_in_node
 from ..framework import stores_to_name, assigned_values
+from .. import exprs as X
 from . import common
 
 
@@ -54,13 +55,32 @@ def twisted_deferred_context(chk, prefix):
             if not (isinstance(r.ast.value, ast.Name) and r.ast.value.id == rp and not stores_to_name(g, rp)):
                 problems.append("the deferred's result is not passed through unchanged")
         evals = {}
-        for n in cfg.live:
-            if isinstance(n.ast, ast.Assign) and isinstance(n.ast.targets[0], ast.Name) and n.ast.targets[0].id == "exception":
-                pol = None
-                for t, lab in cfg.guards_of(n):
-                    if t.kind == "test" and "isinstance(%s, Failure)" % rp in unparse(t.exprs[0]):
-                        pol = lab
-                evals[pol] = unparse(n.ast.value)
+
+        def polarity(n):
+            pol = None
+            for t, lab in cfg.guards_of(n):
+                if t.kind == "test":
+                    e, lab2 = X.strip_not(t.exprs[0], lab)
+                    if "isinstance(%s, Failure)" % rp in unparse(e):
+                        pol = lab2
+            return pol
+        for fn_, c, _m in fcalls:
+            a0 = c.args[0] if c.args else (c.keywords[0].value if c.keywords else None)
+            if isinstance(a0, ast.Name) and a0.id != rp:
+                for n in cfg.live:
+                    if isinstance(n.ast, ast.Assign) and isinstance(n.ast.targets[0], ast.Name) and n.ast.targets[0].id == a0.id:
+                        v = n.ast.value
+                        if isinstance(v, ast.IfExp):
+                            e, lab2 = X.strip_not(v.test, "true")
+                            if "isinstance(%s, Failure)" % rp in unparse(e):
+                                evals[lab2] = unparse(v.body)
+                                evals["false" if lab2 == "true" else "true"] = unparse(v.orelse)
+                                continue
+                        evals[polarity(n)] = unparse(v)
+            elif a0 is None:
+                evals[polarity(fn_)] = "None"
+            else:
+                evals[polarity(fn_)] = unparse(a0)
         if evals != {"true": "%s.value" % rp, "false": "None"}:
             problems.append("the action is not finished with the Failure's value / None (%s)" % evals)
     chk.req(not problems, "%s.integration" % prefix, "twisted.DeferredContext.addActionFinish:finishes-once-truthfully", chk.where(aaf),
